@@ -480,6 +480,13 @@ class QuicConn:
                 self.gen[d] += 1
                 self.features.add("key_update")
             return
+        if op == "ping":
+            # a datagram that carries no stream data (PING + ACK), possibly after skipped packet numbers
+            d = bool(st["d"])
+            pn = self.next_pn.get(("a", d), 0) + max(0, st.get("gap", 0))
+            self.dgram(d, self.packet("app", d, f_ping() + f_ack(0), pn=pn, pn_len=st.get("pnl") or None))
+            self.features.add("ping_only")
+            return
         if op == "ncid":
             d = bool(st["d"])
             if not (self.s_scid if d else self.c_scid):
